@@ -20,6 +20,8 @@ META = {
             "async imports driven by block_on and as tasks; async exports with callback. Resources only as borrow<imported resource> parameters of async exports in a "
             "directed world (host borrow accounting: every lent borrow dropped before task.return); own handles, exported resources and async "
             "methods are left out, as are stream/future/error-context types, stackful async lift and several tasks at once. "
+            "Runtime features: `async` only (no async-spawn / inter-task-wakeup). Single-call schedule space is small (about 40 distinct "
+            "(choice vector, plan, callback codes, subtask statuses) classes) and is covered nearly exhaustively at every seed. "
             "The generated async glue derives its layouts from size_of::<*const u8>() (checked textually on every run), so native 64-bit runs are "
             "sound for these worlds; the Miri shard runs with 32-bit pointers. Generated code that does not compile is a lead for C09, not a verdict.",
 }
